@@ -28,7 +28,7 @@ thread_local! {
     static APPLIES: Cell<u64> = const { Cell::new(0) };
     static MAKES: Cell<u64> = const { Cell::new(0) };
     static VAR_CLONES: RefCell<Vec<u32>> = const { RefCell::new(Vec::new()) };
-    static TABLES: RefCell<[Arc<Table>; N_TABLES]> = RefCell::new(std::array::from_fn(|_| Arc::new(Table { ops: vec![] })));
+    static TABLES: RefCell<[Arc<Table>; N_TABLES]> = RefCell::new(std::array::from_fn(|_| Arc::new(Table { ops: vec![], call_all: false })));
 }
 
 /// every call the library makes into harness code passes here: a scheduling point under E3
@@ -285,11 +285,18 @@ impl OpDesc {
 #[derive(Clone, Debug, PartialEq, Eq)]
 pub struct Table {
     pub ops: Vec<OpDesc>,
+    /// renderer option: the call-form alternative is available for every binary operator
+    /// (symbolic and sign-like ones too), not only for the alphabetic ones
+    pub call_all: bool,
 }
 impl Table {
     pub fn new(ops: Vec<OpDesc>) -> Arc<Table> {
         assert!(ops.len() <= N_SLOTS);
-        Arc::new(Table { ops })
+        Arc::new(Table { ops, call_all: false })
+    }
+    pub fn new_call_all(ops: Vec<OpDesc>) -> Arc<Table> {
+        assert!(ops.len() <= N_SLOTS);
+        Arc::new(Table { ops, call_all: true })
     }
     pub fn is_comm(&self, k: u16) -> bool {
         self.ops[k as usize].bin.map(|b| b.1).unwrap_or(false)
